@@ -2,8 +2,8 @@ package main
 
 // C16 — service environment and labels are layered with the documented precedence.
 //
-//	c16.env     correspondence: Project.WithServicesEnvironmentResolved vs EnvLayers.resolveProjectEnv
-//	c16.labels  correspondence: Project.WithServicesLabelsResolved      vs EnvLayers.resolveProjectLabels
+//	c16.resolve correspondence: Project.WithServicesEnvironmentResolved vs EnvLayers.resolveProjectEnv and
+//	            Project.WithServicesLabelsResolved vs EnvLayers.resolveProjectLabels (same project, same tree)
 //	c16.load    correspondence: environment/labels of a whole loader.LoadWithContext vs EnvLayers.loadProject
 //	c16.oracle  direct oracle:  Project methods (discard on and off) and a whole load on a layer
 //	            assignment vs the Lean *specification* (Spec/EnvLayers.lean: finalEnv / finalLabel)
@@ -104,8 +104,22 @@ func c16RenderLines(ls []c16Line) string {
 }
 
 // c16WriteTree materialises the file nodes under a fresh root.
+// c16TreeBase: trees live on tmpfs when there is one (tens of thousands of tiny directory trees per run);
+// the directory is named after the run's scratch directory and removed by runC16.
+func c16TreeBase() string {
+	scratch := os.Getenv("VERIF_SCRATCH")
+	if scratch == "" {
+		return ""
+	}
+	shm := "/dev/shm/" + filepath.Base(scratch)
+	if err := os.MkdirAll(shm, 0o755); err == nil {
+		return shm
+	}
+	return scratch
+}
+
 func c16WriteTree(files map[string]c16Node) (string, error) {
-	root, err := os.MkdirTemp(os.Getenv("VERIF_SCRATCH"), "c16-")
+	root, err := os.MkdirTemp(c16TreeBase(), "c16-")
 	if err != nil {
 		return "", err
 	}
@@ -229,7 +243,8 @@ func c16Observe(p *types.Project, root string) map[string]any {
 	return out
 }
 
-func c16RealEnv(raw json.RawMessage, labels bool) any {
+// both Project methods, each on the same fresh project and tree
+func c16RealResolve(raw json.RawMessage) any {
 	var a c16Args
 	if err := json.Unmarshal(raw, &a); err != nil {
 		return map[string]any{"bad": err.Error()}
@@ -239,17 +254,24 @@ func c16RealEnv(raw json.RawMessage, labels bool) any {
 	if err != nil {
 		return map[string]any{"bad": err.Error()}
 	}
-	p := c16Project(a, root)
-	var np *types.Project
-	if labels {
-		np, err = p.WithServicesLabelsResolved(a.Discard)
-	} else {
-		np, err = p.WithServicesEnvironmentResolved(a.Discard)
+	out := map[string]any{}
+	for _, labels := range []bool{false, true} {
+		p := c16Project(a, root)
+		var np *types.Project
+		name := "env"
+		if labels {
+			name = "labels"
+			np, err = p.WithServicesLabelsResolved(a.Discard)
+		} else {
+			np, err = p.WithServicesEnvironmentResolved(a.Discard)
+		}
+		if err != nil {
+			out[name] = map[string]any{"err": c16ErrClass(err)}
+		} else {
+			out[name] = map[string]any{"ok": c16Observe(np, root)}
+		}
 	}
-	if err != nil {
-		return map[string]any{"err": c16ErrClass(err)}
-	}
-	return map[string]any{"ok": c16Observe(np, root)}
+	return out
 }
 
 // ---------------------------------------------------------------- whole loads
@@ -310,21 +332,20 @@ func c16Yaml(a c16Args) string {
 }
 
 func c16LoadReq(a c16Args) core.LoadReq {
-	files := map[string]string{"compose.yaml": c16Yaml(a)}
-	for name, nd := range a.Files {
-		if nd.Dir {
-			files[name+"/.keep"] = ""
-		} else {
-			files[name] = c16RenderLines(nd.Lines)
-		}
-	}
-	return core.LoadReq{Files: files, ConfigFiles: []string{"compose.yaml"}, Env: a.Penv, ProjectName: "c16",
+	return core.LoadReq{ConfigFiles: []string{"compose.yaml"}, Env: a.Penv, ProjectName: "c16",
 		SkipNormalization: a.SkipNormalization, SkipResolveEnvironment: a.SkipResolveEnvironment, DiscardEnvFiles: a.Discard}
 }
 
 func c16RealLoad(a c16Args) any {
-	p, root, err := c16LoadReq(a).Load()
+	root, err := c16WriteTree(a.Files)
 	defer os.RemoveAll(root)
+	if err != nil {
+		return map[string]any{"bad": err.Error()}
+	}
+	if err := os.WriteFile(filepath.Join(root, "compose.yaml"), []byte(c16Yaml(a)), 0o644); err != nil {
+		return map[string]any{"bad": err.Error()}
+	}
+	p, err := c16LoadReq(a).LoadIn(root)
 	if err != nil {
 		return map[string]any{"err": c16ErrClass(err)}
 	}
@@ -643,15 +664,22 @@ func c16JudgeOracle(args, real, drv json.RawMessage) *core.Verdict {
 }
 
 func init() {
-	core.Register("c16.env", &core.CheckDef{
-		Real:     func(raw json.RawMessage) any { return c16RealEnv(raw, false) },
-		DriverOp: "c16.env",
-		Judge:    c16Corr("WithServicesEnvironmentResolved"),
-	})
-	core.Register("c16.labels", &core.CheckDef{
-		Real:     func(raw json.RawMessage) any { return c16RealEnv(raw, true) },
-		DriverOp: "c16.labels",
-		Judge:    c16Corr("WithServicesLabelsResolved"),
+	core.Register("c16.resolve", &core.CheckDef{
+		Real:     c16RealResolve,
+		DriverOp: "c16.resolve",
+		Judge: func(args, real, drv json.RawMessage) *core.Verdict {
+			if v := core.CrashVerdict(real); v != nil {
+				return v
+			}
+			var r, d map[string]json.RawMessage
+			if json.Unmarshal(real, &r) != nil || json.Unmarshal(drv, &d) != nil || r["env"] == nil || d["env"] == nil {
+				return core.Disagree("malformed exchange: " + string(real) + " / " + string(drv))
+			}
+			if v := c16Corr("WithServicesEnvironmentResolved")(args, r["env"], d["env"]); v != nil {
+				return v
+			}
+			return c16Corr("WithServicesLabelsResolved")(args, r["labels"], d["labels"])
+		},
 	})
 	core.Register("c16.load", &core.CheckDef{
 		Real: func(raw json.RawMessage) any {
